@@ -223,6 +223,15 @@ pub fn bad_record(rng: &mut Rng, sw: &Swarm, b: Badness) -> Rec {
             }
         }
         Badness::TermLenLt6 => {
+            if rng.chance(1, 4) {
+                // zero padding where a record should start
+                let n = *rng.pick(&[6usize, 7, 8, 12, 16]);
+                return Rec {
+                    bytes: vec![0u8; n],
+                    expect: Some(SpecErr::InvalidAvpLength),
+                    terminal: true,
+                };
+            }
             let len = rng.urange(0, 5);
             let mut bytes = header(len, flags, if rng.bool() { 0 } else { rng.u16() }, rng.range(0, 41) as u16);
             let extra = rng.urange(0, 8);
